@@ -48,6 +48,10 @@ CHECKS = {
          "Exploration with an exhaustive sub-space: 6000 sampled font-info subsets (both UFO libraries, TTF/OTF, variable-font overrides) compiled, saved, reloaded and compared field by field with the explicit value or the documented fallback; every run also pushes all 1 112 064 Unicode scalar values through the real PostScript-name fallback and fully compiles representatives of each outcome class.",
          "Trusts fontTools' table readers; attributes without a destination in the listed tables are unchecked (listed in the evidence assumptions).",
          "DESIGN.md section 5 C16"),
+ "C17": ("runtime monitoring: compiled feature text parsed back and compared with the user's statements (subsequence / marker-position oracle), GSUB bytes with vs without writers, writer call-order log",
+         "Exploration: 3000 generated feature files (languagesystems, classes, GSUB features, hand-written kern/mark/mkmk/curs/GDEF blocks with the marker at top/middle/bottom/alone/mis-cased/twice) x writer lists (default, lib, explicit with ellipsis, skip/append, a harness GSUB writer placed last) compiled by the real compileTTF; the debug feature file is parsed back with feaLib and every user statement must survive in order, generated rules must sit at the marker, GSUB bytes must equal the no-writer compile, GSUB writers must run first (hook on BaseFeatureWriter.write).",
+         "Trusts feaLib's parser/asFea round trip (checked per case) and fontTools' sfnt reader.",
+         "DESIGN.md section 5 C17"),
 }
 
 NOT_APPLICABLE = [
